@@ -21,6 +21,7 @@ func c09Opts(i int) gen.PipeOpts {
 		Str:        gen.StringOpts{Tricky: true, Interp: true, LeadingWS: mix(i, 1, 9) == 0},
 		Unknown:    mix(i, 2, 4) == 0,
 		Signature:  true,
+		Coincide:   true,
 		Sharing:    mix(i, 3, 6) == 1,
 		TrickyKeys: mix(i, 4, 2) == 0,
 		BigMaps:    mix(i, 5, 5) == 0,
